@@ -34,7 +34,7 @@ OPS = {"operator.mul": 0, "operator.truediv": 1, "operator.pow": 2,
        "operator.ge": 13, "operator.floordiv": 3, "operator.mod": 4}
 
 # type-of-validity codes (MoneyConverter._type_of_validity holds a type)
-TYPE_CODES = {"NoneType": 1, "int": 2, "tuple": 3, "date": 4}
+TYPE_CODES = {"NoneType": 1, "int": 2, "tuple": 3, "date": 4, "datetime": 5}
 
 
 def _mk(name, *fields):
